@@ -323,6 +323,32 @@ impl<'de> Deserialize<'de> for Table {
     }
 }
 
+/// a payload whose own Serialize goes through a handle to the very allocation it lives in, once (a bounded
+/// self-reference, e.g. a node that prints its parent link): the handle must forward that call like any other
+#[derive(Clone, PartialEq, Debug)]
+pub struct SelfRef(pub u32);
+thread_local! {
+    static SELF_HANDLE: RefCell<Option<Arc<SelfRef>>> = const { RefCell::new(None) };
+    static SELF_DEPTH: Cell<u32> = const { Cell::new(0) };
+}
+impl Serialize for SelfRef {
+    fn serialize<S: Serializer>(&self, s: S) -> Result<S::Ok, S::Error> {
+        use serde::ser::SerializeTuple;
+        let d = SELF_DEPTH.with(|c| c.get());
+        let me = if d == 0 { SELF_HANDLE.with(|h| h.borrow().clone()) } else { None };
+        let mut t = s.serialize_tuple(2)?;
+        t.serialize_element(&self.0)?;
+        SELF_DEPTH.with(|c| c.set(d + 1));
+        let r = match &me {
+            Some(h) => t.serialize_element(h),
+            None => t.serialize_element(&0u8),
+        };
+        SELF_DEPTH.with(|c| c.set(d));
+        r?;
+        t.end()
+    }
+}
+
 fn live_blocks() -> usize {
     alloc::table().iter().filter(|r| r.live).count()
 }
@@ -530,8 +556,32 @@ fn de_in_place_case<T: for<'de> Deserialize<'de> + PartialEq + Clone + fmt::Debu
     }
 }
 
+/// the handle under test is the one the payload's own Serialize re-enters
+fn ser_reentrant_case(out: &mut Vec<Value>) {
+    let a = Arc::new(SelfRef(5));
+    SELF_HANDLE.with(|h| *h.borrow_mut() = Some(a.clone()));
+    let base = RefCell::new(Vec::with_capacity(4096));
+    let _ = (*a).serialize(Rec { log: &base, fail_at: 0, hr: true });
+    let ncalls = base.borrow().len();
+    for k in 0..=(ncalls + 1) {
+        let lv = RefCell::new(Vec::with_capacity(4096));
+        let rv = (*a).serialize(Rec { log: &lv, fail_at: k, hr: true });
+        let lh = RefCell::new(Vec::with_capacity(4096));
+        let c0 = Arc::count(&a);
+        let rh = a.serialize(Rec { log: &lh, fail_at: k, hr: true });
+        let c1 = Arc::count(&a);
+        let same_calls = *lh.borrow() == *lv.borrow();
+        out.push(json!({"op": "ser", "payload": "SelfRef (its Serialize re-enters the handle's allocation once)", "kind": "arc_shared", "k": k, "ncalls": ncalls,
+                        "human_readable": 1, "same_calls": same_calls as u8, "same_result": (rh == rv) as u8,
+                        "count_before": c0, "count_after": c1, "live_delta": 0, "leaked": 0,
+                        "detail": if same_calls && rh == rv { json!("-") } else { json!(format!("handle calls {:x?} result {:?}; value calls {:x?} result {:?}", lh.borrow(), rh, lv.borrow(), rv)) }}));
+    }
+    SELF_HANDLE.with(|h| *h.borrow_mut() = None);
+}
+
 pub fn run(out_path: &str) {
     let mut out: Vec<Value> = vec![json!({"op": "init"})];
+    ser_reentrant_case(&mut out);
     let outer = Outer { a: 7, inner: Inner { x: -3, s: "in".into() }, v: vec![Inner { x: 1, s: "a".into() }, Inner { x: 2, s: "b".into() }] };
     ser_case("u64", &42u64, &mut out);
     ser_case("String", &String::from("hello"), &mut out);
